@@ -23,6 +23,7 @@ import (
 	"fmt"
 	"io"
 	"log"
+	"math/rand"
 	"reflect"
 	"sort"
 	"time"
@@ -447,18 +448,36 @@ func (k *KVStore) Check(hkey uint64) bool {
 	return false
 }
 
+// rangeTables visits the tables by starting from a randomly picked one and stops when f returns
+// false. Range and RangeHKey are used to draw samples (background eviction, LRU): if they always
+// started from the last table, and kept calling f on the other tables after it returned false,
+// the samples would only ever come from the table that accepts writes.
+func (k *KVStore) rangeTables(f func(t *table.Table) bool) {
+	n := len(k.tables)
+	if n == 0 {
+		return
+	}
+	start := rand.Intn(n)
+	for i := 0; i < n; i++ {
+		if !f(k.tables[(start+i)%n]) {
+			return
+		}
+	}
+}
+
 // Range calls f sequentially for each key and value present in the map.
 // If f returns false, range stops the iteration. Range may be O(N) with
 // the number of elements in the map even if f returns false after a constant
 // number of calls.
 func (k *KVStore) Range(f func(hkey uint64, e storage.Entry) bool) {
-	// Scan available tables by starting the last added table.
-	for i := len(k.tables) - 1; i >= 0; i-- {
-		t := k.tables[i]
+	k.rangeTables(func(t *table.Table) bool {
+		next := true
 		t.Range(func(hkey uint64, e storage.Entry) bool {
-			return f(hkey, e)
+			next = f(hkey, e)
+			return next
 		})
-	}
+		return next
+	})
 }
 
 // RangeHKey calls f sequentially for each key present in the map.
@@ -466,13 +485,14 @@ func (k *KVStore) Range(f func(hkey uint64, e storage.Entry) bool) {
 // the number of elements in the map even if f returns false after a constant
 // number of calls.
 func (k *KVStore) RangeHKey(f func(hkey uint64) bool) {
-	// Scan available tables by starting the last added table.
-	for i := len(k.tables) - 1; i >= 0; i-- {
-		t := k.tables[i]
+	k.rangeTables(func(t *table.Table) bool {
+		next := true
 		t.RangeHKey(func(hkey uint64) bool {
-			return f(hkey)
+			next = f(hkey)
+			return next
 		})
-	}
+		return next
+	})
 }
 
 func (k *KVStore) findCoefficient(coefficient uint64) (uint64, error) {
